@@ -46,6 +46,7 @@ var SQLSeeds = []string{
 	"aaaaaaaaaaaaaaaaaaaaaaaaaaaaaa.select", "aaaaaaaaaaaaaaaaaaaaaaaaaaaaaaa.b", "aaaaaaaaaaaaaaaaaaaaaaaaaaaaaaaa.b", "select.aaaaaaaaaaaaaaaaaaaaaaaaaaaaaaaaaaaa",
 	"\x00", "\x00\x00", "1\x001", "a\x00b", "\xa0", "1\xa0or\xa01=1", "\x7f", "\x80", "\xff", "\xc5\xbf", "1 union \xc5\xbfelect 1 from x", "\xc4\xb1n (1)", "1 or\x0b1=1", "1\x0cor\x0d1=1",
 	"1 UNION SELECT 1 FROM a", "1 uNiOn SeLeCt 1", "1 OR 1=1", "1 Or 1=1",
+	"/*M!50101 select*/ 1", "1 union /*M!100100 all */ select 1", "select /*+ index(t) */ 1 from t", "/*m!1*/", "\\*=1", "1 or \\*=1", "1 or @database()", "1 or `user`()", "`current_user`() or 1", "@user() or 1", "1 or @@version()",
 	"select u&'a' uescape '!'", "u&'d!0061t!+000061' uescape '!' or 1", "select e'a\\'b' 'c'", "1 or 'a' similar to 'b' escape '!'", "$body$a$body$ or 1", "$$a$$ or 1", "1 at time zone 'utc' or 1", "select x'1f' 'ab'", "interval '1' day or 1",
 	"1' or 1=1 -- 1", "1\" or \"a\"=\"a", "1' or 'a'='a' -- ", "1' and 1=1 #", "1' #\n or 1=1", "1 --x\n or 1=1", "1' --x\n or 1=1", "1\" --x\n or 1=1", "a\" or 1=1 #x",
 }
@@ -62,6 +63,8 @@ var HTMLSeeds = []string{
 	"<img src=x onerror=alert(1)>", "<img/src=x/onerror=alert(1)>", "<img\nsrc\n=\nx\nonerror\n=\nalert(1)>", "<img src onerror=alert(1)>", "<p style=x>", "<p style='x'>", "<p filter=x>", "<p STYLE =x>",
 	"<p xmlns=x>", "<p xlink=x>", "<p xlink:href=javascript:x>", "<set attributename=onclick>", "<set attributename=href>", "<set attributename=x>", "<set attributeName=xmlns to=x>",
 	"<p datasrc=x>", "<p dataformatas=x>", "<p by=data:x>", "<p to=java>", "<p from=x>", "<p values=vbscript:>", "<form action=javascript:x>", "<button formaction=data:x>",
+	"<a href=ja&NewLine;vascript:x>", "<a href=java&Tab;script:x>", "<a href=javascript&colon;x>", "<a href='jav&#x0A;ascript:x'>", "<a href=/home HREF=&#106;avascript:x>", "<a href=\x0bjavascript:x>", "<a href=javascript:void(0);x>", "<a href=\"javascript:alert(1)//javascript:void(0)\">",
+	"<?xml\n", "<!--[if\r\n", "<?xml ", "<?xml a>b?>c", "<!\r-x>y-->z", "</a x=\">\"y>z", "</a x='>'y><script>", "<a folder=javascript:x>", "' folder=javascript:alert(1) ", "\x00<xss>", "\x00    <script>alert(1)</script>",
 	"<!DOCTYPE html>", "<!doctype", "<!DoCtYpE x", "<!doctyp>", "<!ENTITY x>", "<!entity x>", "<!ent\x00ity x>", "<!ENTIT>", "<?import x>", "<?IMPORT x>", "<?imp\x00ort>", "<?xml x>", "<?xml>", "<?XML x", "<?x>", "<?>", "<?",
 	"<!--[if gte IE 4]>x<![endif]-->", "<!--[IF x]>-->", "<!--[i", "<!-- ` -->", "<!--`", "<!-- x -->", "<!---->", "<!--->", "<!-->", "<!--", "<!-", "<!", "<!>", "<!x>", "<!x", "<!-- x --!>", "<!-- x -!>", "<!-- x -\x00->", "<!-- x -\x00\x00!>",
 	"<!-- x - -> y -->", "<!-- x --", "<!-- x -", "<!-- x --\x00", "<!-- -- -->z<script>", "<!--x--><script>", "<!--x->--><script>",
